@@ -11,12 +11,15 @@ use super::NativeFunctionMetaData;
 fn lookup(mem: &mut Memory, key: GcRef, environment: GcRef, environment_module: &str) -> Result<GcRef, ModulError> {
     let mut cursor = environment;
 
-    while let Some(c) = cursor.get() {
-        let cons = c.as_conscell();
+    // a hand-made environment (make-function, call-native-function) can have any shape:
+    // entries that are not (symbol . value) pairs never match, and the environment ends where the list ends
+    while let Some(PrimitiveValue::Cons(cons)) = cursor.get() {
         let key_value = cons.get_car();
 
-        if key_value.get().unwrap().as_conscell().get_car().get().unwrap().as_symbol() == key.get().unwrap().as_symbol() {
-            return Ok(key_value.get().unwrap().as_conscell().get_cdr());
+        if let Some(PrimitiveValue::Cons(kv)) = key_value.get() {
+            if symbol_eq!(kv.get_car(), key) {
+                return Ok(kv.get_cdr());
+            }
         }
 
         cursor = cons.get_cdr();
